@@ -17,18 +17,30 @@ from qucumber.observables import (NeighbourInteraction, ObservableBase, SigmaX, 
 from qucumber.observables.observable import ProdObservable, SumObservable  # noqa: E402
 
 FILES = ["qucumber/observables/observable.py"]
-EXTRA_TRUSTED = ["C16: CPython binary-operator dispatch (forward / reflected methods) and numpy.float64.__op__(observable) re-dispatching with a Python float are part of the model (pyAdd/pySub/pyMul, Kind.reflected), tied to the interpreter only by the correspondence"]
-REQUIRED_THEOREMS = ["C16_apply_eq_eval", "C16_linear_iff_ok", "C16_error_kind", "C16_statistics"]
+EXTRA_TRUSTED = ["C16: CPython binary-operator dispatch (forward / reflected methods; numpy scalars and arrays on the left of an observable returning NotImplemented because of ObservableBase.__array_ufunc__ = None) is part of the model (pyAdd/pySub/pyMul, Kind.reflected), tied to the interpreter only by the correspondence"]
+REQUIRED_THEOREMS = ["C16_apply_eq_eval", "C16_linear_iff_ok", "C16_error_kind", "C16_statistics", "C16_statistics_sampled",
+                     "C16_constructor_sum", "C16_constructor_prod", "C16_constructor_value"]
 THEOREMS = {
     "apply": "C16_apply_eq_eval",
     "stats": "C16_statistics, C16_statistics_real",
+    "sampled": "C16_statistics_sampled",
     "error": "C16_error_kind, C16_linear_iff_ok",
+    "ctor": "C16_constructor_sum, C16_constructor_prod",
+    "ctor_value": "C16_constructor_value",
 }
+# operands that are real-number-like / array-like but NOT instances of float or int: rejected (TypeError) in EITHER operand position.
+# On the LEFT this relies on ObservableBase.__array_ufunc__ = None (proposed/F-C16-numpy-left-operand.md): without it numpy absorbs the
+# observable (`np.array([1., 2.]) * obs` -> object array of composites, `np.int64(3) * obs` accepted) - reported with this signature
+NUMPY_TAGS = ("npint64", "npint32", "npfloat32", "ndarray", "ndarray0", "ndarray_int")
+SIG_NUMPY = "numpy-operand/not-rejected"
 RULE = ("case = (leaf observables, batch of samples [+ state], expression tree); trees are generated top-down to depth <= 6 "
         "from the grammar leaf | const(bool/int/float/numpy.float64) | -e | e+e | e-e | e*e, constrained to be linear "
         "(valid stream) or unconstrained / fault-injected with None, str, complex operands and observable*observable "
-        "(malformed stream); scalars include 0 and negatives and stand on either side. mock tier: integer-valued mock "
-        "leaves, integer-valued scalars, model run over Int, exact comparison; real tier: SigmaX/Y/Z, "
+        "(malformed stream); scalars include 0 and negatives and stand on either side; in a quarter of the valid cases and in the "
+        "'shared' stream textually identical sub-expressions are ONE Python object used several times (a = 2*X; a - a). mock tier: integer-valued mock "
+        "leaves, integer-valued scalars, model run over Int, exact comparison; numpy scalars that are not float/int instances, numpy "
+        "arrays, tensors, lists, Fractions as operands in EITHER position (fixed + fault-injected); empty batches; the constructors "
+        "SumObservable / ProdObservable called directly on every pair of operand classes; real tier: SigmaX/Y/Z, "
         "NeighbourInteraction, SWAP on random Positive/Complex/Density states, model run over Float. "
         "non-trivial iff >= 3 operator nodes, a subtraction or negation, and a scalar operand; distinct by hash of "
         "(leaves, expression). history cases: one composite object built from a valid expression and used along a sequence (sample "
@@ -95,25 +107,43 @@ def py_const(node):
     import fractions
     return {"None": None, "str": "a", "complex": 1j,
             # real scalars that are NOT float/int instances: refused by the constructors exactly like other non-numeric operands
-            "npint64": np.int64(3), "npint32": np.int32(-2), "npfloat32": np.float32(2.5), "fraction": fractions.Fraction(3, 2)}[tag]
+            "npint64": np.int64(3), "npint32": np.int32(-2), "npfloat32": np.float32(2.5), "fraction": fractions.Fraction(3, 2),
+            # arrays / tensors / lists: not scalars at all
+            "ndarray": np.array([1.0, 2.0]), "ndarray0": np.array(2.0), "ndarray_int": np.arange(3),
+            "tensor": torch.tensor([1.0, 2.0], dtype=torch.double), "tensor0": torch.tensor(2.0, dtype=torch.double), "list": [1, 2]}[tag]
 
 
-def py_build(node, leaves):
-    """evaluate the expression with the REAL Python operators on the real objects"""
+def numpy_bad(node):
+    """does the expression contain a numpy scalar / array operand that is not a float or int instance?"""
+    if node[0] == "const":
+        return node[1] == "bad" and len(node) > 3 and node[3] in NUMPY_TAGS
+    return any(numpy_bad(k) for k in node[1:] if isinstance(k, list))
+
+
+def py_build(node, leaves, shared=None):
+    """evaluate the expression with the REAL Python operators on the real objects. With `shared` (a dict) textually identical
+    sub-expressions are evaluated ONCE and the resulting Python object is reused wherever the sub-expression occurs again
+    (`a = 2 * X; a - a`): building an expression must not modify its operands."""
     t = node[0]
     if t == "leaf":
         return leaves[node[1]]
     if t == "const":
         return py_const(node)
+    key = None
+    if shared is not None:
+        import json
+        key = json.dumps(node)
+        if key in shared:
+            return shared[key]
     if t == "neg":
-        return -py_build(node[1], leaves)
-    a = py_build(node[1], leaves)
-    b = py_build(node[2], leaves)
-    if t == "add":
-        return a + b
-    if t == "sub":
-        return a - b
-    return a * b
+        r = -py_build(node[1], leaves, shared)
+    else:
+        a = py_build(node[1], leaves, shared)
+        b = py_build(node[2], leaves, shared)
+        r = a + b if t == "add" else (a - b if t == "sub" else a * b)
+    if shared is not None:
+        shared[key] = r
+    return r
 
 
 def interp(node, leafvals):
@@ -318,9 +348,12 @@ def inject_fault(rng, tree, nleaves):
             return set_at(tree, p, ["mul", sub, ["leaf", rng.randrange(nleaves)]] if rng.random() < 0.5
                           else ["mul", ["leaf", rng.randrange(nleaves)], sub])
         if kind == "bad_sibling" and classify(sub) == ("obs", None):
-            if rng.random() < 0.4:  # non-(float|int) real scalars, only as the RIGHT operand (left position is numpy's dispatch)
-                bad = ["const", "bad", 0, rng.choice(["npint64", "npint32", "npfloat32", "fraction"])]
-                return set_at(tree, p, [rng.choice(OPS2), sub, bad])
+            if rng.random() < 0.5:  # non-(float|int) real scalars, arrays, tensors, lists: in EITHER operand position
+                bad = ["const", "bad", 0, rng.choice(["npint64", "npint32", "npfloat32", "fraction", "ndarray", "ndarray0", "ndarray_int",
+                                                      "tensor", "tensor0", "list"])]
+                op = rng.choice(OPS2)
+                right = rng.random() < 0.4 and (op, bad[3]) != ("sub", "ndarray0")   # -np.array(2.0) is a numpy.float64 (numpy, not the library)
+                return set_at(tree, p, [op, sub, bad] if right else [op, bad, sub])
             bad = ["const", "bad", 0, rng.choice(["None", "str", "complex"])]
             op = rng.choice(OPS2)
             return set_at(tree, p, [op, sub, bad] if rng.random() < 0.5 else [op, bad, sub])
@@ -356,11 +389,27 @@ def gen_state(rng, n):
             "ph": qc.rand_prbm_params(rng, n, h, a, scale)}
 
 
+def gen_shared_expr(rng, mode, nleaves):
+    """a linear expression in which one sub-expression `a` (a scaled / negated / composite observable) occurs several times; the harness
+    evaluates `a` once and reuses the object"""
+    c = gen_scalar(rng, mode)
+    base = gen_obs_expr(rng, mode, rng.randrange(0, 3), nleaves, False)
+    a = rng.choice([["mul", c, base], ["mul", base, c], ["neg", base], ["sub", c, base], ["mul", c, ["neg", base]], base])
+    x = gen_obs_expr(rng, mode, rng.randrange(0, 2), nleaves, False)
+    k = gen_scalar(rng, mode)
+    return rng.choice([
+        ["sub", a, a], ["add", ["neg", a], a], ["add", ["sub", k, a], a], ["sub", ["sub", x, a], a], ["add", ["mul", k, a], ["sub", a, x]],
+        ["sub", ["neg", ["neg", a]], a], ["add", ["sub", a, x], ["sub", x, a]], ["add", ["mul", ["neg", a], k], ["add", a, a]],
+    ])
+
+
 def gen_case(rng, mode, stream, depth):
     n = rng.randrange(2, 5)
-    B = rng.choice([1, 2, 3, 4, 6])
+    B = rng.choice([1, 2, 3, 4, 6, 1, 2, 3, 4, 6, 0])
     leaves = gen_leaves(rng, mode, n)
-    if stream == "valid":
+    if stream == "shared":
+        expr = gen_shared_expr(rng, mode, len(leaves))
+    elif stream == "valid":
         expr = gen_obs_expr(rng, mode, depth, len(leaves))
     elif stream == "fault":
         expr = inject_fault(rng, gen_obs_expr(rng, mode, max(1, depth - 1), len(leaves)), len(leaves))
@@ -368,16 +417,19 @@ def gen_case(rng, mode, stream, depth):
         expr = gen_wild(rng, mode, depth, len(leaves))
     return {"mode": mode, "stream": stream, "n": n, "leaves": leaves, "expr": expr,
             "samples": [[rng.randrange(2) for _ in range(n)] for _ in range(B)],
-            "state": gen_state(rng, n) if mode == "real" else None, "layout": rng.choice(LAYOUTS)}
+            "state": gen_state(rng, n) if mode == "real" else None, "layout": rng.choice(LAYOUTS),
+            "share": stream == "shared" or (stream == "valid" and rng.random() < 0.25)}
 
 
 # ---------------------------------------------------------------- one case
 def one_case(ctx, case):
+    if case.get("ctor"):
+        return ctor_case(ctx, case)
     mode, expr = case["mode"], case["expr"]
     carrier = "int" if mode == "mock" else "float"
     leaves = [make_leaf(s, i) for i, s in enumerate(case["leaves"])]
     st = make_state(case["state"])
-    samples = torch.tensor(case["samples"], dtype=torch.double)
+    samples = torch.tensor(case["samples"], dtype=torch.double).reshape(len(case["samples"]), case["n"])
     B = len(case["samples"])
     st_info = stats_of(expr)
     cls, exp_err = classify(expr)
@@ -398,17 +450,24 @@ def one_case(ctx, case):
     # ---- implementation: build with the real operators
     impl_err, obj = None, None
     try:
-        obj = py_build(expr, leaves)
+        obj = py_build(expr, leaves, {} if case.get("share") else None)
     except Exception as e:  # noqa: BLE001
         impl_err = type(e).__name__
     sig = f"{mode}/{case['stream']}"
+    if case.get("share"):
+        ctx.count("shared_subexpression_objects")
     # oracle: error kind / success as the independent classification says
-    ctx.oracle("build outcome == linearity classification", impl_err == exp_err, case,
-               detail={"impl": impl_err, "expected": exp_err}, sig=f"{sig}/build-outcome", theorem=THEOREMS["error"])
-    if impl_err is None:
+    np_unrejected = impl_err is None and exp_err == "TypeError" and numpy_bad(expr)
+    if numpy_bad(expr):
+        ctx.count("numpy_nonfloat_operand")
+    ctx.oracle("build outcome == linearity classification" if not np_unrejected else
+               "a numpy scalar / array operand that is neither float nor int is rejected (TypeError) when the expression is built", impl_err == exp_err, case,
+               detail={"impl": impl_err, "expected": exp_err, "built": None if obj is None else type(obj).__name__ + ":" + repr(obj)[:120]},
+               sig=SIG_NUMPY if np_unrejected else f"{sig}/build-outcome", theorem=THEOREMS["error"])
+    if impl_err is None and exp_err is None:
         ctx.oracle("result is an observable iff the expression mentions one", isinstance(obj, ObservableBase) == (cls == "obs"), case,
                    detail={"type": type(obj).__name__, "class": cls}, sig=f"{sig}/result-kind", theorem="C16_result_is_observable")
-    impl_apply = impl_stats = None
+    impl_apply = impl_stats = impl_stats_err = None
     if impl_err != exp_err:
         return  # already a violation; nothing sensible to evaluate further
     if isinstance(obj, ObservableBase):
@@ -418,7 +477,12 @@ def one_case(ctx, case):
             t1, back1 = make_batch(case["samples"], case["n"], lay)
             impl_apply = obj.apply(st, t1).detach().numpy().astype(np.float64)
             t2, back2 = make_batch(case["samples"], case["n"], lay)
-            impl_stats = obj.statistics_from_samples(st, t2)
+            try:
+                impl_stats = obj.statistics_from_samples(st, t2)
+            except ZeroDivisionError:
+                if B != 0:
+                    raise
+                impl_stats_err = "ZeroDivisionError"
             ctx.oracle("apply / statistics_from_samples leave the batch (and the rest of its buffer) unchanged",
                        bool(torch.equal(t1, samples)) and bool(torch.equal(t2, samples)) and outside_untouched(back1, lay)
                        and outside_untouched(back2, lay), case, sig=f"{sig}/no-mutation")
@@ -426,6 +490,15 @@ def one_case(ctx, case):
             ctx.oracle("apply / statistics_from_samples of a built composite do not raise", False, case,
                        detail={"raised": type(e).__name__, "msg": str(e)[:200]}, sig=f"{sig}/apply-raised", theorem=THEOREMS["apply"])
             return
+        if B == 0:
+            # statistics of NOTHING are not constrained by the property: the library raises ZeroDivisionError (modelled); undefined (nan)
+            # statistics with num_samples == 0 would be as good
+            ctx.oracle("empty batch: apply returns no value; statistics_from_samples raises ZeroDivisionError (or reports undefined statistics)",
+                       impl_apply.shape == (0,) and (impl_stats_err is not None or (impl_stats["num_samples"] == 0 and all(
+                           math.isnan(float(impl_stats[k])) for k in ("mean", "variance", "std_error")))), case,
+                       detail={"raised": impl_stats_err, "apply_shape": list(impl_apply.shape)}, sig=f"{sig}/empty-batch", theorem=THEOREMS["stats"])
+            if impl_stats_err is None:
+                return
         # oracle: apply == the arithmetic expression on the leaves' values
         if carrier == "int":
             ivals = [[int(v) for v in lv] for lv in leafvals]
@@ -435,20 +508,22 @@ def one_case(ctx, case):
             want_f = np.array([float(w) for w in want])
         else:
             want_f = np.array([float(interp(expr, [lv[s] for lv in leafvals])) for s in range(B)])
-            sc = max(1.0, max(interp_abs(expr, [abs(float(lv[s])) for lv in leafvals]) for s in range(B)))
+            sc = max([1.0] + [interp_abs(expr, [abs(float(lv[s])) for lv in leafvals]) for s in range(B)])
             ok = bool(np.all(np.abs(impl_apply - want_f) <= 1e-9 * sc))
         ctx.oracle("apply == expression(leaf values)", ok, case, detail={"impl": impl_apply.tolist(), "expected": want_f.tolist()},
                    sig=f"{sig}/apply-oracle", theorem=THEOREMS["apply"])
         # oracle: statistics are those of the combined per-sample value
-        m = float(np.mean(want_f))
+        if B == 0:
+            ctx.count("empty_batch")
+        m = float(np.mean(want_f)) if B else float("nan")
         v = float(np.var(want_f, ddof=1)) if B > 1 else float("nan")
         se = math.sqrt(v / B) if B > 1 and v >= 0 else float("nan")
-        vs = max(1.0, float(np.max(np.abs(want_f))))
-        okS = (impl_stats["num_samples"] == B and abs(impl_stats["mean"] - m) <= 1e-9 * vs
+        vs = max([1.0] + [abs(float(x)) for x in want_f])
+        okS = B == 0 or (impl_stats["num_samples"] == B and abs(impl_stats["mean"] - m) <= 1e-9 * vs
                and ((math.isnan(v) and math.isnan(impl_stats["variance"]) and math.isnan(impl_stats["std_error"])) or
                     (abs(impl_stats["variance"] - v) <= 1e-9 * vs * vs and abs(float(impl_stats["std_error"]) - se) <= 1e-7 * vs)))
         ctx.oracle("statistics == statistics of expression(leaf values)", bool(okS), case,
-                   detail={"impl": {k: float(x) for k, x in impl_stats.items()}, "expected": [m, v, se, B]},
+                   detail={"impl": None if impl_stats is None else {k: float(x) for k, x in impl_stats.items()}, "expected": [m, v, se, B]},
                    sig=f"{sig}/stats-oracle", theorem=THEOREMS["stats"])
 
     # ---- model
@@ -476,22 +551,24 @@ def one_case(ctx, case):
         ctx.point("result kind", "property", type(obj).__name__, "observable", case, exact=True, sig=f"{sig}/result-kind",
                   theorem="C16_result_is_observable")
         return
-    ctx.point("object structure", "aux", describe(obj, leaves, carrier), canon_tree(mod["tree"], carrier), case, exact=True,
-              sig=f"{sig}/structure")
+    # the internal layout of the built object (.left/.right, stored scalar types) is NOT constrained by the property: a re-arrangement with
+    # the same apply values is as good. Recorded in the input distribution only (never a mismatch)
+    ctx.count("structure_as_modelled" if describe(obj, leaves, carrier) == canon_tree(mod["tree"], carrier) else "structure_differs_from_model")
     if carrier == "int":
         ia = [int(v) if float(v).is_integer() else float(v) for v in impl_apply]
         ctx.point("apply", "property", ia, mod["apply"], case, exact=True, theorem=THEOREMS["apply"], sig=f"{sig}/apply")
         ctx.point("model apply == model eval", "aux", mod["eval"], mod["apply"], case, exact=True, sig=f"{sig}/apply-eval")
         modf = ctx.driver.call("c16.build", carrier="float", expr=to_driver(expr, "float"), vals=[bits(lv) for lv in leafvals], batch=B)
-        sc = max(1.0, float(np.max(np.abs(impl_apply))))
+        sc = max([1.0] + [abs(float(x)) for x in impl_apply])
     else:
-        sc = max(1.0, max(interp_abs(expr, [abs(float(lv[s])) for lv in leafvals]) for s in range(B)))
+        sc = max([1.0] + [interp_abs(expr, [abs(float(lv[s])) for lv in leafvals]) for s in range(B)])
         ctx.point("apply", "property", impl_apply, unbits(mod["apply"]), case, scale=sc, theorem=THEOREMS["apply"], sig=f"{sig}/apply")
         ctx.point("model apply == model eval", "aux", unbits(mod["eval"]), unbits(mod["apply"]), case, scale=sc, sig=f"{sig}/apply-eval")
         modf = mod
     ms = modf["stats"]
-    if "error" in ms:
-        ctx.point("statistics_from_samples", "property", "ok", ms["error"], case, exact=True, sig=f"{sig}/stats", theorem=THEOREMS["stats"])
+    if "error" in ms or impl_stats_err is not None:
+        ctx.point("statistics_from_samples: error kind", "property", impl_stats_err, ms.get("error"), case, exact=True, sig=f"{sig}/stats",
+                  theorem=THEOREMS["stats"])
         return
     ctx.point("stats.mean", "property", [impl_stats["mean"]], unbits([ms["mean"]]), case, scale=sc, theorem=THEOREMS["stats"], sig=f"{sig}/stats")
     ctx.point("stats.variance", "property", [impl_stats["variance"]], unbits([ms["variance"]]), case, scale=sc * sc,
@@ -500,6 +577,83 @@ def one_case(ctx, case):
               rtol=1e-5, atol=1e-7, theorem=THEOREMS["stats"], sig=f"{sig}/stats")
     ctx.point("stats.num_samples", "property", impl_stats["num_samples"], ms["n"], case, exact=True, theorem=THEOREMS["stats"],
               sig=f"{sig}/stats")
+
+
+# ---------------------------------------------------------------- the constructors called directly
+def ctor_case(ctx, case):
+    """`SumObservable(a, b)` / `ProdObservable(a, b)` called directly on operands obtained from the expressions `a`, `b` (observables, composites,
+    scalars of every kind, non-numeric values): error kind, stored structure, apply vs `a + b` / `a * b` on the leaves' values.
+    Two plain numbers are ACCEPTED by SumObservable (no observable inside: outside the property; apply returns a Python float)."""
+    which, ea, eb = case["ctor"], case["a"], case["b"]
+    mode = case["mode"]
+    carrier = "int" if mode == "mock" else "float"
+    leaves = [make_leaf(sp, i) for i, sp in enumerate(case["leaves"])]
+    st = make_state(case["state"])
+    samples = torch.tensor(case["samples"], dtype=torch.double).reshape(len(case["samples"]), case["n"])
+    B = len(case["samples"])
+    ca, cb = classify(ea), classify(eb)
+    ctx.case({"ctor": which, "a": ea, "b": eb, "leaves": case["leaves"]}, nontrivial=ca[0] == "obs" or cb[0] == "obs",
+             sample={"ctor": which, "a": ea, "b": eb})
+    ctx.count(f"ctor={which}"); ctx.count(f"ctor_operands={ca[0]},{cb[0]}")
+    if ca[1] or cb[1]:
+        return  # operands are built with the operators first; their own failures are the business of one_case
+    if ca[0] == "num" and cb[0] == "num":
+        # no observable and no non-numeric operand involved: SumObservable(2, 3) is accepted (its apply returns one Python float and its
+        # statistics_from_samples raises AttributeError), ProdObservable(2, 3) is a ValueError. Not an "observable built from observables
+        # and scalars": outside the property, executed and recorded only
+        try:
+            (SumObservable if which == "sum" else ProdObservable)(py_build(ea, leaves), py_build(eb, leaves))
+            ctx.count(f"ctor_{which}_of_two_numbers_accepted")
+        except Exception as e:  # noqa: BLE001
+            ctx.count(f"ctor_{which}_of_two_numbers_{type(e).__name__}")
+        return
+    va, vb = py_build(ea, leaves), py_build(eb, leaves)
+    # independent classification of the constructor call
+    if "bad" in (ca[0], cb[0]):
+        exp_err = "TypeError"
+    elif which == "prod" and (ca[0] == "obs") == (cb[0] == "obs"):
+        exp_err = "ValueError"
+    else:
+        exp_err = None
+    impl_err, obj = None, None
+    try:
+        obj = (SumObservable if which == "sum" else ProdObservable)(va, vb)
+    except Exception as e:  # noqa: BLE001
+        impl_err = type(e).__name__
+    sig = f"ctor/{which}"
+    ctx.oracle("constructor: TypeError for a non-numeric operand, ValueError unless exactly one Prod operand is an observable, else built",
+               impl_err == exp_err, case, detail={"impl": impl_err, "expected": exp_err}, sig=f"{sig}/outcome", theorem=THEOREMS["ctor"])
+    if impl_err != exp_err:
+        return
+    leafvals = [l.apply(st, samples.clone()).detach().numpy().astype(np.float64).copy() for l in leaves]
+    spec = ["add" if which == "sum" else "mul", ea, eb]
+    got = None
+    if impl_err is None:
+        got = obj.apply(st, samples.clone())
+        got = got.detach().numpy().astype(np.float64)
+        want = np.array([float(interp(spec, [lv[k] for lv in leafvals])) for k in range(B)])
+        sc0 = max([1.0] + [interp_abs(spec, [abs(float(lv[k])) for lv in leafvals]) for k in range(B)])
+        ctx.oracle("constructor: apply == (a + b | a * b) on the leaves' values",
+                   got.shape == want.shape and bool(np.all(np.abs(got - want) <= 1e-9 * sc0)), case,
+                   detail={"impl": got.tolist(), "expected": want.tolist()}, sig=f"{sig}/apply-oracle", theorem=THEOREMS["ctor_value"])
+    if ctx.driver is None:
+        return
+    vals = [[int(v) for v in lv] for lv in leafvals] if carrier == "int" else [bits(lv) for lv in leafvals]
+    m = ctx.driver.call("c16.ctor", carrier=carrier, which=which, a=to_driver(ea, carrier), b=to_driver(eb, carrier), vals=vals, batch=B)
+    if "operand_error" in m:
+        ctx.point("constructor operands", "aux", None, m["operand_error"], case, exact=True, sig=f"{sig}/operands")
+        return
+    ctx.point("constructor: error kind", "property", impl_err, m.get("error"), case, exact=True, theorem=THEOREMS["ctor"], sig=f"{sig}/error-kind")
+    if impl_err is not None or "error" in m:
+        return
+    ctx.count("ctor_structure_as_modelled" if describe(obj, leaves, carrier) == canon_tree(m["tree"], carrier) else "ctor_structure_differs_from_model")
+    if carrier == "int":
+        ctx.point("constructor: apply", "property", [int(v) if float(v).is_integer() else float(v) for v in got], m["apply"], case, exact=True,
+                  theorem=THEOREMS["ctor_value"], sig=f"{sig}/apply")
+    else:
+        ctx.point("constructor: apply", "property", got, unbits(m["apply"]), case, scale=max([1.0] + [abs(float(x)) for x in got]),
+                  theorem=THEOREMS["ctor_value"], sig=f"{sig}/apply")
+    ctx.point("constructor: model apply == model eval", "aux", m["eval"], m["apply"], case, exact=True, sig=f"{sig}/apply-eval")
 
 
 # ---------------------------------------------------------------- fixed cases worth always running
@@ -520,9 +674,36 @@ def fixed_cases():
         ["neg", ["const", "bad", 0, "None"]], ["add", ["mul", L0, L1], ["const", "bad", 0, "None"]],
         ["mul", ["add", L0, ["const", "bad", 0, "None"]], L1], ["mul", ["const", "int", 2], ["const", "bad", 0, "None"]],
         ["mul", ["const", "int", 2], ["const", "float", 3.0]],
+        # numpy.float64 (a float subclass) on the LEFT of each operator: accepted, the numpy scalar itself is stored
+        ["add", ["const", "npfloat", 2.0], L0], ["sub", ["const", "npfloat", -1.0], L1], ["mul", ["const", "npfloat", 3.0], L0],
+        ["mul", ["const", "npfloat", 2.0], ["sub", ["const", "npfloat", 1.0], L0]],
     ]
+    # numpy scalars that are not float/int instances, arrays, tensors, lists: rejected in EITHER operand position of every operator
+    for tag in ("ndarray", "ndarray_int", "ndarray0", "npint64", "npint32", "npfloat32", "tensor", "tensor0", "list", "fraction"):
+        bad = ["const", "bad", 0, tag]
+        for op in OPS2:
+            exprs.append([op, bad, L0])
+            if (op, tag) != ("sub", "ndarray0"):   # `obs - np.array(2.0)`: numpy's unary minus turns the 0-d array into a numpy.float64 first
+                exprs.append([op, L1, bad])
+        exprs.append(["add", ["mul", bad, ["sub", L0, ["const", "int", 1]]], L1])
     for e in exprs:
         yield {"mode": "mock", "stream": "fixed", "n": 3, "leaves": mock, "expr": e, "samples": samples, "state": None}
+    A = ["mul", ["const", "int", 2], L0]
+    for e in (["sub", A, A], ["add", ["neg", A], A], ["add", ["sub", ["const", "int", 1], A], A], ["sub", ["neg", ["neg", A]], A],
+              ["add", ["sub", L1, ["neg", L0]], ["neg", L0]]):
+        yield {"mode": "mock", "stream": "fixed", "n": 3, "leaves": mock, "expr": e, "samples": samples, "state": None, "share": True}
+    # an empty batch (B = 0): apply returns an empty tensor, statistics_from_samples raises ZeroDivisionError
+    for e in exprs[:3] + exprs[9:11]:
+        yield {"mode": "mock", "stream": "fixed", "n": 3, "leaves": mock, "expr": e, "samples": [], "state": None}
+    # the constructors called directly
+    S = lambda k, c: ["const", k, c]  # noqa: E731
+    bad = ["const", "bad", 0, "None"]
+    operands = [L0, L1, ["neg", L0], ["mul", S("int", 2), L1], S("int", 2), S("float", -1.0), S("bool", 1), S("npfloat", 3.0), S("int", 0),
+                bad, ["const", "bad", 0, "npint64"], ["const", "bad", 0, "ndarray"], ["const", "bad", 0, "str"]]
+    for which in ("sum", "prod"):
+        for a in operands:
+            for b in operands:
+                yield {"ctor": which, "mode": "mock", "stream": "ctor", "n": 3, "leaves": mock, "a": a, "b": b, "samples": samples, "state": None}
 
 
 def gen_cases(ctx, scale):
@@ -539,6 +720,17 @@ def gen_cases(ctx, scale):
         yield gen_case(rng, "mock", "wild", rng.randrange(1, 5))
     for _ in range(4 * scale):
         yield gen_case(rng, "real", "fault", rng.randrange(1, 5))
+    # one sub-expression object used several times in the expression (building must not modify operands)
+    for k in range(30 * scale):
+        yield gen_case(rng, "real" if k % 5 == 4 else "mock", "shared", 0)
+    # the constructors called directly on random operands (composites, scalars), mock and real leaves
+    for k in range(12 * scale):
+        mode = "real" if k % 3 == 2 else "mock"
+        c = gen_case(rng, mode, "valid", 1)
+        nl = len(c["leaves"])
+        pick = lambda: (gen_obs_expr(rng, mode, rng.randrange(0, 3), nl, False) if rng.random() < 0.6 else gen_scal_expr(rng, mode, 1))  # noqa: E731
+        del c["expr"]
+        yield {**c, "stream": "ctor", "ctor": rng.choice(["sum", "prod"]), "a": pick(), "b": pick()}
 
 
 # ---------------------------------------------------------------- call history on the same objects + statistics() of composites
@@ -589,6 +781,14 @@ def gen_history(rng, mode, depth):
                       "user": user, "rows": None if user is None else mk(n, rng.randrange(1, 4)), "overwrite": rng.random() < 0.5})
     c["stats"] = stats
     return c
+
+
+def leaf_values(leaf_specs, state_spec, rows):
+    """values of FRESH leaf observables on a fresh state with the given parameters and a fresh tensor with the given content"""
+    leaves = [make_leaf(sp, i) for i, sp in enumerate(leaf_specs)]
+    st = make_state(state_spec)
+    t = torch.tensor(rows, dtype=torch.double).reshape(len(rows), state_spec["n"])
+    return [l.apply(st, t.clone()).detach().numpy().astype(np.float64).copy() for l in leaves]
 
 
 def expected_values(ctx, expr, leaf_specs, state_spec, rows):
@@ -730,6 +930,32 @@ def history_case(ctx, case):
                    detail={"T": len(calls), "T_expected": T_exp, "k": [cl["k"] for cl in calls], "inits": [cl["init"] for cl in calls],
                            "rets": [cl["ret"] for cl in calls]}, sig=f"{sig}/draws", theorem="C13_count, C13_schedule")
         chunks = [expected_values(ctx, expr, specs, cur, cl["ret_copy"].to(torch.int64).tolist())[0].tolist() for cl in calls]
+        if ctx.driver is not None:
+            # the composite's own `statistics` in the model (Obs.statistics = C13's streaming model on the composite's applyBatch of the
+            # leaves' values on every drawn chain state): C16_statistics_sampled says it is the one-pass statistics of the expression
+            run = dict(num_samples=ns, num_chains=nc, burn_in=q["burn_in"], steps=q["steps"], overwrite=q["overwrite"], clone_id=1, user_id=0,
+                       init_rows=None if user is None else len(q["rows"]), ret_ids=[cl["ret"] for cl in calls])
+            ms = ctx.driver.call("c16.statistics", expr=to_driver(expr, "float"),
+                                 vals=[[bits(v) for v in leaf_values(specs, cur, cl["ret_copy"].to(torch.int64).tolist())] for cl in calls], **run)
+            allv = [abs(float(x)) for ch in chunks for x in ch]
+            sc = max([1.0] + allv)
+            for key, lvl in (("onepass", "property"), ("result", "aux")):
+                mm = ms.get(key, {"error": ms.get("error", "missing")})
+                if "error" in mm:
+                    ctx.point(f"composite.statistics.{key}", lvl, "ok", mm["error"], sub, exact=True, sig=f"{sig}/sampled-{key}", theorem=THEOREMS["sampled"])
+                    continue
+                ctx.point(f"composite.statistics.{key}.mean", lvl, [r["mean"]], unbits([mm["mean"]]), sub, scale=sc, theorem=THEOREMS["sampled"],
+                          sig=f"{sig}/sampled-{key}")
+                ctx.point(f"composite.statistics.{key}.variance", lvl, [r["variance"]], unbits([mm["variance"]]), sub, scale=sc * sc,
+                          theorem=THEOREMS["sampled"], sig=f"{sig}/sampled-{key}")
+                ctx.point(f"composite.statistics.{key}.std_error", lvl, [float(r["std_error"])], unbits([mm["std_error"]]), sub, scale=sc, rtol=1e-5,
+                          atol=1e-7, theorem=THEOREMS["sampled"], sig=f"{sig}/sampled-{key}")
+                ctx.point(f"composite.statistics.{key}.num_samples", lvl, r["num_samples"], mm["n"], sub, exact=True, theorem=THEOREMS["sampled"],
+                          sig=f"{sig}/sampled-{key}")
+            if "calls" in ms:
+                ctx.point("composite.statistics: sampler calls", "property",
+                          [{"num_samples": cl["num_samples"], "k": cl["k"], "init": cl["init"], "overwrite": cl["overwrite"]} for cl in calls], ms["calls"],
+                          sub, exact=True, theorem=THEOREMS["sampled"], sig=f"{sig}/sampled-calls")
         check_stats("statistics", r, chunks, sub, T=len(calls), c=c_exp, ns=ns,
                     model_args=dict(num_samples=ns, num_chains=nc, burn_in=q["burn_in"], steps=q["steps"], overwrite=q["overwrite"], system=False,
                                     clone_id=1, user_id=0, init_rows=None if user is None else len(q["rows"]), ret_ids=[cl["ret"] for cl in calls]))
